@@ -25,8 +25,6 @@ package main
 //   uspec/populate-override ClientOverride is byte-identical to what uTLS serialises
 //   uspec/dial-wire         suppress -> (shuffle) -> populate: the extension bytes parse to
 //                           the kept parameters, in order unless shuffled
-//   uspec/reuse-stale       the dial sequence applied twice to ONE extension object (a reused
-//                           spec): the second serialisation is the second list
 //   uspec/perm-coverage, uspec/perm-chi2   distribution support (small lists)
 //   uspec/panic             a panic other than the two documented type-assertion ones
 
@@ -51,18 +49,31 @@ func init() {
 	units["uspec"] = runUSpec
 	genSources = append(genSources, wire.VerifUSpecConsts, protocol.VerifUSpecConsts, func() [][2]any {
 		out := [][2]any{{"uspec_QTPGrease", uint64(quic.QTPGrease)}}
-		// the frame-count ranges of the Chrome_115 parrots (candidate finding of C11_fp_invariant)
-		for _, nm := range []string{"Chrome_115_IPv4", "Chrome_115_IPv6"} {
+		// the PING-count range (MinPING, MaxPING) of every randomised frame builder of every
+		// built-in parrot, one entry per builder (C11_parrots_ping_stable is stated over this table)
+		var rs []string
+		add := func(rf quic.QUICRandomFrames) {
+			rs = append(rs, u.Pair(u.Z(int64(rf.MinPING)), u.Z(int64(rf.MaxPING))))
+		}
+		for _, nm := range parrotNames {
 			sp, err := quic.QUICID2Spec(parrotIDs[nm])
 			if err != nil {
 				panic(err)
 			}
-			rf, ok := sp.InitialPacketSpec.FrameBuilder.(*quic.QUICRandomFrames)
-			if !ok {
-				panic(nm + ": frame builder is not QUICRandomFrames")
+			switch fb := sp.InitialPacketSpec.FrameBuilder.(type) {
+			case *quic.QUICRandomFrames:
+				add(*fb)
+			case *quic.QUICRandomFlightFrames:
+				for _, d := range fb.PerDatagram {
+					add(d.Frames)
+				}
+			case quic.QUICFrames, *quic.QUICFlightFrames, nil:
+				// fixed frame lists: nothing is drawn
+			default:
+				panic(fmt.Sprintf("%s: frame builder %T is not known to the C11 translator", nm, fb))
 			}
-			out = append(out, [2]any{"uspec_" + nm + "_MinPING", int64(rf.MinPING)}, [2]any{"uspec_" + nm + "_MaxPING", int64(rf.MaxPING)})
 		}
+		out = append(out, [2]any{"uspec_parrot_ping_ranges", "list (Z * Z) := " + u.List(rs)})
 		return out
 	})
 }
@@ -711,7 +722,8 @@ func uDialCase(o *uOut, r *u.Rng) {
 }
 
 // uReuse: the dial sequence (suppress, shuffle, populate, serialise) twice on ONE extension
-// object, as two dials of a reused QUICSpec do. Monitor only.
+// object. Observation only (INFO + DIST): uTLS returns the first bytes again. Whether a
+// re-dialled QUICSpec is affected is decided by simfingerprint's reuse-* monitors.
 func uReuse(o *uOut, r *u.Rng) {
 	n := r.Range(6, 10)
 	l := make(tls.TransportParameters, n)
@@ -743,11 +755,16 @@ func uReuse(o *uOut, r *u.Rng) {
 		cur := uSnapshot(ext.TransportParameters)
 		detail := fmt.Sprintf("dial#%d seed=%d suppress=%v list=%s wire=%s override=%x first-dial-wire=%x", d, seed, sup, fpParamsString(cur), fpParamsString(wps), tp.ClientOverride, first)
 		if !fpSameOrder(cur, wps) || !bytes.Equal(body, tp.ClientOverride) {
-			key := "uspec/wire-mismatch"
-			if d > 0 {
-				key = "uspec/reuse-stale"
+			if d == 0 {
+				o.fail("uspec/wire-mismatch", "a dial's extension bytes are not its own parameter list", detail)
+			} else if o.dist["reuse stale (uTLS cache)"] == 0 {
+				// Not a monitor: the harness itself re-used the extension object here. This only
+				// documents why newUClientConnection must not (uTLS caches the bytes on first Len()).
+				fmt.Fprintf(o.w, "INFO\tobservation: one QUICTransportParametersExtension object serialised twice returns the first bytes: %s\n", detail)
 			}
-			o.fail(key, "a dial's extension bytes are not its own parameter list (second dial of one extension object: the first dial's bytes)", detail)
+			if d > 0 {
+				o.dist["reuse stale (uTLS cache)"]++
+			}
 		}
 		if d == 0 {
 			first = body
